@@ -531,6 +531,9 @@ def root_locals_through_calls(b, op, depth=0, seen=None):
             rv = d[3]['rv']
             if rv['k'] in ('use', 'cast'):
                 out |= root_locals_through_calls(b, rv['op'], depth + 1, seen)
+            elif rv['k'] == 'agg' and rv.get('variant') in ('Ok', 'Some') and len(rv.get('fields') or []) == 1 and op_place(rv['fields'][0]) is not None:
+                # `Ok(Some(v))` handed back by a (spliced) helper and unwrapped again by `?`
+                out |= root_locals_through_calls(b, rv['fields'][0], depth + 1, seen)
         elif d[2] == 'call':
             nm = callee_name(d[3]) or ''
             if re.search(r'::(unwrap_or|unwrap_or_default|unwrap_or_else|take|map|into|from|clone|transpose|branch|ok|flatten)$', nm) and d[3]['args']:
